@@ -29,6 +29,17 @@ type Solver struct {
 	syncTime                       time.Duration
 	timeoutMs                      int
 	name                           string
+	// scopedDecls: declarations and definitions live in the scope they were made in
+	// (no :global-declarations); they are forgotten on pop and re-sent on demand
+	scopedDecls bool
+	declLog     []declRec
+	tmpLevel    int
+}
+
+type declRec struct {
+	level int
+	key   string
+	t     *Term
 }
 
 func NewSolver(bin string, args []string, timeoutMs int, logPath string) (*Solver, error) {
@@ -54,8 +65,13 @@ func NewSolver(bin string, args []string, timeoutMs int, logPath string) (*Solve
 		}
 	}
 	s.raw("(set-option :print-success true)")
-	s.raw("(set-option :global-declarations true)")
-	s.raw("(set-option :produce-models true)")
+	if strings.Contains(bin, "z3") {
+		s.raw("(set-option :global-declarations true)")
+		s.raw("(set-option :produce-models true)")
+	} else {
+		s.raw("(set-logic ALL)")
+		s.scopedDecls = true
+	}
 	if strings.Contains(bin, "z3") {
 		s.raw(fmt.Sprintf("(set-option :timeout %d)", timeoutMs))
 	}
@@ -162,20 +178,26 @@ func (s *Solver) define(t *Term) {
 		case OpVar:
 			if !s.declared[x.name] {
 				s.declared[x.name] = true
+				s.noteDecl(x.name, nil)
 				s.raw(fmt.Sprintf("(declare-const %s %s)", smtName(x.name), sortStr(x.w)))
 			}
 		default:
 			if x.op == OpSel && !s.declared["arr:"+x.name] {
 				s.declared["arr:"+x.name] = true
+				s.noteDecl("arr:"+x.name, nil)
 				s.raw(fmt.Sprintf("(declare-const %s (Array (_ BitVec 64) (_ BitVec 8)))", smtName(x.name)))
 			}
 			if x.op == OpUF && !s.declared["uf:"+x.name] {
 				s.declared["uf:"+x.name] = true
+				s.noteDecl("uf:"+x.name, nil)
 				s.raw(fmt.Sprintf("(declare-fun %s %s)", smtName(x.name), ufDecls[x.name]))
 			}
 			s.raw(fmt.Sprintf("(define-fun t%d () %s %s)", x.id, sortStr(x.w), x.body()))
 		}
 		x.sent = true
+		if x.op != OpConst {
+			s.noteDecl("", x)
+		}
 	}
 	if len(pendingGlobalAsserts) > 0 && s.level == 0 {
 		s.flushGlobals()
@@ -220,6 +242,29 @@ func (s *Solver) Assert(t *Term) {
 	s.raw("(assert " + t.ref() + ")")
 }
 
+func (s *Solver) noteDecl(key string, t *Term) {
+	if s.scopedDecls {
+		s.declLog = append(s.declLog, declRec{s.level + s.tmpLevel, key, t})
+	}
+}
+
+func (s *Solver) forgetAbove(level int) {
+	if !s.scopedDecls {
+		return
+	}
+	n := len(s.declLog)
+	for n > 0 && s.declLog[n-1].level > level {
+		r := s.declLog[n-1]
+		if r.t != nil {
+			r.t.sent = false
+		} else {
+			delete(s.declared, r.key)
+		}
+		n--
+	}
+	s.declLog = s.declLog[:n]
+}
+
 func (s *Solver) Push() {
 	s.raw("(push 1)")
 	s.level++
@@ -229,6 +274,7 @@ func (s *Solver) PopTo(level int) {
 	if level < s.level {
 		s.raw(fmt.Sprintf("(pop %d)", s.level-level))
 		s.level = level
+		s.forgetAbove(level)
 		for _, g := range globalAsserts {
 			if g.level > level {
 				s.raw(g.text)
@@ -259,11 +305,15 @@ func (s *Solver) Check(extra *Term) SatResult {
 			s.flushGlobals()
 		}
 		s.raw("(push 1)")
+		s.tmpLevel = 1
+		s.define(extra)
 		s.raw("(assert " + extra.ref() + ")")
 	}
 	r := s.checkSat()
 	if extra != nil {
 		s.raw("(pop 1)")
+		s.tmpLevel = 0
+		s.forgetAbove(s.level)
 	}
 	return r
 }
